@@ -52,7 +52,49 @@ pub fn gen(a: &Args) -> i32 {
                 }
                 ws.join(" ")
             };
-            if x < 30 {
+            // transactions measured against the memtable: twice its size (refused before anything is logged) and
+            // 80-93% of it (must go through, whatever is in the memtable already and whatever tower heights are drawn)
+            if memkb <= 64 && x < 30 && r.chance(1, 6) {
+                let k = hex(KEYS[r.below(nk as u64) as usize]);
+                vctr += 1;
+                let tag = hex(format!("v{vctr}").as_bytes());
+                if r.chance(1, 3) {
+                    writeln!(out, "txnbig {k}=Z{}.{tag}", memkb * 2048).unwrap();
+                    st.bump("op_txn_oversize");
+                } else if r.chance(1, 2) {
+                    // as many 100-byte entries as the admission check lets through, or a few fewer: whether they fit
+                    // the arena of an ordinary memtable depends on the tower heights drawn for their nodes
+                    let (min_node, max_node, empty) = surrealkv::verif::memtable::node_sizes();
+                    let data = 4 + 100 + 2 + 7; // key, value, inline-value header, alignment slack
+                    let cap = memkb as usize * 1024;
+                    let m_max = (cap - empty - (max_node + data)) / (min_node + data) + 1;
+                    let m = m_max - r.below(5) as usize;
+                    let mut ws = vec![];
+                    for j in 0..m {
+                        vctr += 1;
+                        let mut val = format!("v{vctr}").into_bytes();
+                        val.resize(100, b'y');
+                        ws.push(format!("{}={}", hex(format!("k{j:03}").as_bytes()), hex(&val)));
+                    }
+                    writeln!(out, "txn {}", ws.join(" ")).unwrap();
+                    st.bump("op_txn_many_entries_at_the_limit");
+                } else {
+                    let parts = r.range(1, 5);
+                    let total = memkb * 1024 * r.range(80, 93) / 100;
+                    let mut ws = vec![];
+                    for j in 0..parts {
+                        let kk = hex(KEYS[((r.below(nk as u64) + j) % nk as u64) as usize]);
+                        vctr += 1;
+                        ws.push(format!("{kk}=Z{}.{}", total / parts, hex(format!("v{vctr}").as_bytes())));
+                    }
+                    let at = if r.chance(1, 3) { format!("@{}", r.range(1, 9)) } else { String::new() };
+                    if !at.is_empty() {
+                        images += 1;
+                    }
+                    writeln!(out, "txn{at} {}", ws.join(" ")).unwrap();
+                    st.bump("op_txn_near_capacity");
+                }
+            } else if x < 30 {
                 writeln!(out, "txn {}", mk_writes(&mut r, &mut vctr)).unwrap();
                 st.bump("op_txn");
                 // the process dies while this commit's record is being written: torn tail, reopen with repair, carry on
@@ -174,7 +216,7 @@ fn scan(tree: &Tree) -> Result<String, String> {
     while ok && it.valid() {
         let k = it.key().user_key().to_vec();
         let v = it.value().map_err(|e| format!("value:{}", err_name(&e)))?;
-        items.push(format!("{}={}", hex(&k), hex(&v)));
+        items.push(format!("{}={}", hex(&k), render_val(&v)));
         ok = it.next().map_err(|e| format!("next:{}", err_name(&e)))?;
         if items.len() > 1000 {
             return Err("runaway".into());
@@ -283,17 +325,17 @@ pub fn exec(a: &Args) -> i32 {
             }
             let rot_before = ROTATIONS.load(std::sync::atomic::Ordering::SeqCst);
             let r: Result<(), String> = match base {
-                "txn" => (|| {
+                "txn" | "txnbig" => (|| {
                     let mut tx = t.begin().map_err(|e| err_name(&e))?;
                     for wr in &w[1..] {
                         let (k, v) = wr.split_once('=').unwrap();
                         match v {
                             "DEL" => tx.delete(unhex(k)),
-                            _ => tx.set(unhex(k), unhex(v)),
+                            _ => tx.set(unhex(k), tok_val(v)),
                         }
                         .map_err(|e| err_name(&e))?;
                     }
-                    rt.block_on(tx.commit()).map_err(|e| err_name(&e))
+                    rt.block_on(tx.commit()).map_err(|e| if matches!(e, surrealkv::Error::BatchTooLarge) { "toolarge".to_string() } else { err_name(&e) })
                 })(),
                 "rotate" => vs::rotate(t),
                 "flush" => vs::rotate(t).and_then(|_| vs::flush_immutables(t)),
